@@ -43,7 +43,11 @@ RULE = (
     "constructor raising, archive truncated at byte k, bit flipped, archive of "
     "another format); Exception and BaseException flavours.  Non-trivial = "
     "content >= 2 bytes and (a fault was injected or the name/fmt selects a "
-    "compression format).  Distinct = distinct case hash.  Thorough adds one "
+    "compression format) / two or more blocks open at once (suite nested: "
+    "2-3 compress / decompress blocks for equally named files in different "
+    "directories, left in LIFO or another order, with unrelated files in the "
+    "temp dirs and next to the archives whose bytes must not change).  "
+    "Distinct = distinct case hash.  Thorough adds one "
     "content of 100 MiB + 1 byte per format (crosses the copy chunk)."
 )
 ASSUMPTIONS = [
@@ -289,8 +293,20 @@ def check_case(case, ctx):
             os.mkdir(d)
         tempfile.tempdir = D
         target = os.path.join(W, name)
-        world = {"T": T, "D": D, "W": W, "X": X, "U": U,
+        world = {"T": T, "D": D, "W": W, "X": X, "U": U, "by": {T: {}, D: {}},
                  "compress": compress, "decompress": decompress}
+        if case.get("bystanders"):
+            # unrelated files that live in the temp dirs already, called like
+            # the names involved: they are neither debris nor typhon's to touch
+            ctx.label("bystanders")
+            stems = {name, name + "." + (fmt or "gz"), "temp",
+                     os.path.splitext(name)[0] or "x"}
+            for d in (T, D):
+                for n in sorted(stems):
+                    data = ("bystander %s" % n).encode("utf-8")
+                    with open(os.path.join(d, n), "wb") as fh:
+                        fh.write(data)
+                    world["by"][d][n] = data
         ok = run_compress(case, ctx, world, name, target, fmt, via, content)
         run_decompress(case, ctx, world, name, target, fmt, via, content, ok)
     finally:
@@ -313,12 +329,26 @@ def other_filesystem(reference):
     return None
 
 
+def temp_dirs_clean(world):
+    return all(listing(world[k]) == sorted(world["by"][world[k]])
+               for k in ("T", "D"))
+
+
 def no_debris(ctx, world, phase, extra=""):
     for key in ("T", "D"):
-        left = listing(world[key])
+        d = world[key]
+        how = "tmpdir=" if key == "T" else "tempfile.tempdir"
+        mine = world["by"][d]
+        left = [n for n in listing(d) if n not in mine]
         ctx.check(not left, "%s/temp-debris" % phase, lambda: (
             "%s left in the temp dir given as %s after the block%s"
-            % (left, "tmpdir=" if key == "T" else "tempfile.tempdir", extra)))
+            % (left, how, extra)))
+        hurt = [n for n, data in sorted(mine.items())
+                if not os.path.isfile(os.path.join(d, n))
+                or read_bytes(os.path.join(d, n)) != data]
+        ctx.check(not hurt, "%s/bystander-touched" % phase, lambda: (
+            "unrelated files %r in the temp dir given as %s were changed or "
+            "removed%s" % (hurt, how, extra)))
 
 
 def run_compress(case, ctx, world, name, target, fmt, via, content):
@@ -349,6 +379,9 @@ def run_compress(case, ctx, world, name, target, fmt, via, content):
     if cf is not None:
         ctx.label("fault-" + {"zipcopy": "copy"}.get(cf["kind"], cf["kind"]),
                   "exc-" + cf["exc"])
+    if cf is not None and cf["kind"] == "noinput":
+        return run_compress_noinput(case, ctx, world, name, target, fmt,
+                                    kwargs, pre, content)
     body_exc = None
     raised = None
     yielded = None
@@ -358,7 +391,7 @@ def run_compress(case, ctx, world, name, target, fmt, via, content):
                 if fmt is None:
                     ctx.check(path is target, "compress/passthrough-not-same",
                               lambda: "compress(%r) yielded %r" % (target, path))
-                    ctx.check(not listing(T) and not listing(D),
+                    ctx.check(temp_dirs_clean(world),
                               "compress/passthrough-tempfile",
                               lambda: "temp entries for a plain name: %r %r"
                               % (listing(T), listing(D)))
@@ -461,6 +494,46 @@ def run_compress(case, ctx, world, name, target, fmt, via, content):
                       if a != b), min(len(got), len(content))))))
     temp_location()
     return problem is None and got == content
+
+
+def run_compress_noinput(case, ctx, world, name, target, fmt, kwargs, pre,
+                         content):
+    """the block ends normally but left nothing to compress at the yielded
+    path (never written / removed again / a directory): there is no content,
+    so no target may appear and an existing one must stay as it was"""
+    how = case["cfault"]["how"]
+    W = world["W"]
+    ctx.label("noinput-" + how)
+    error = None
+    try:
+        with world["compress"](target, **kwargs) as path:
+            if how == "removed":
+                with open(path, "wb") as fh:
+                    fh.write(content)
+                os.unlink(path)
+            elif how == "directory":
+                os.mkdir(path)
+    except OSError as exc:              # FileNotFoundError, IsADirectoryError
+        error = exc
+    ctx.label("noinput-raises" if error is not None else "noinput-silent")
+    detail = " (block left %s at the temp path, compress(%r, %r)%s)" % (
+        {"nothing": "no file", "removed": "no file",
+         "directory": "a directory"}[how], name, kwargs,
+        ", raised %r" % (error,) if error is not None else "")
+    no_debris(ctx, world, "compress", detail)
+    sig = "compress/target-after-missing-input"
+    if pre is None:
+        ctx.check(listing(W) == [], sig, lambda: (
+            "a target appeared although there was nothing to compress: %r%s"
+            % (listing(W), detail)))
+    else:
+        ctx.check(listing(W) == [name] and read_bytes(target) == pre, sig,
+                  lambda: "the existing target (%d bytes) is now %s%s" % (
+                      len(pre), "%d bytes" % len(read_bytes(target))
+                      if os.path.isfile(target) else "gone", detail))
+    for n in listing(W):
+        os.unlink(os.path.join(W, n))
+    return False
 
 
 def run_decompress(case, ctx, world, name, target, fmt, via, content,
@@ -629,6 +702,134 @@ def run_decompress(case, ctx, world, name, target, fmt, via, content,
 
 
 # --------------------------------------------------------------------------
+# several blocks open at the same time
+# --------------------------------------------------------------------------
+def check_nested(case, ctx):
+    """2-3 compress / decompress blocks for files with the same base name in
+    different directories are open at once and left in a generated order"""
+    from typhon.files import compress, decompress
+    slots = case["slots"]
+    order = [i for i in case["exit_order"] if i < len(slots)]
+    order += [i for i in reversed(range(len(slots))) if i not in order]
+    lifo = order == list(reversed(range(len(slots))))
+    ctx.label("nested-%d" % len(slots), "exit-lifo" if lifo else "exit-other")
+    ctx.nontrivial = len(slots) >= 2
+    root = tempfile.mkdtemp(prefix="vp-c12-")
+    saved_tempdir = tempfile.tempdir
+    try:
+        T = os.path.join(root, "tmp-arg")
+        D = os.path.join(root, "tmp-default")
+        os.mkdir(T)
+        os.mkdir(D)
+        tempfile.tempdir = D
+        by = {T: {}, D: {}}
+        open_blocks = []
+        for i, slot in enumerate(slots):
+            fmt = slot["fmt"]
+            name = case["stem"] + "." + fmt
+            W = os.path.join(root, "dir%d" % i)
+            os.mkdir(W)
+            by[W] = {}
+            content = b"slot %d: " % i + slot["data"]
+            path = os.path.join(W, name)
+            if slot["kind"] == "decompress":
+                with open(path, "wb") as fh:
+                    fh.write(stdlib_archive(fmt, case["stem"], content))
+                by[W][name] = read_bytes(path)
+            if slot["sibling"]:
+                # an unrelated uncompressed file next to the archive
+                sib = os.path.join(W, case["stem"])
+                with open(sib, "wb") as fh:
+                    fh.write(b"sibling %d" % i)
+                by[W][case["stem"]] = b"sibling %d" % i
+            tmpdir = {"arg": T, "default": None, "own": W}[slot["tmp"]]
+            ctx.label("nested-" + slot["kind"], "nested-tmp-" + slot["tmp"])
+            if case["bystanders"]:
+                for d in (T, D):
+                    for n in (case["stem"], name, "temp"):
+                        with open(os.path.join(d, n), "wb") as fh:
+                            fh.write(b"bystander " + n.encode())
+                        by[d][n] = b"bystander " + n.encode()
+            kwargs = {} if tmpdir is None else {"tmpdir": tmpdir}
+            cm = (decompress if slot["kind"] == "decompress" else compress)(
+                path, **kwargs)
+            open_blocks.append({"i": i, "cm": cm, "slot": slot, "path": path,
+                                "content": content, "W": W, "open": False,
+                                "kwargs": kwargs})
+        if case["bystanders"]:
+            ctx.label("bystanders")
+
+        def describe():
+            return " (blocks: %s; exit order %r)" % (", ".join(
+                "%s(dir%d/%s.%s, %r)" % (b["slot"]["kind"], b["i"],
+                                         case["stem"], b["slot"]["fmt"],
+                                         b["slot"]["tmp"])
+                for b in open_blocks), order)
+
+        def verify_open(when):
+            paths = [b["yielded"] for b in open_blocks if b["open"]]
+            ctx.check(len(set(paths)) == len(paths), "nested/shared-temp-path",
+                      lambda: "two open blocks were given the same path: %r%s"
+                      % (paths, describe()))
+            for b in open_blocks:
+                if not b["open"]:
+                    continue
+                ok = os.path.isfile(b["yielded"]) and read_bytes(
+                    b["yielded"]) == b["content"]
+                ctx.check(ok, "nested/open-block-disturbed", lambda b=b: (
+                    "%s: the temp file of the open %s block %d %s%s" % (
+                        when, b["slot"]["kind"], b["i"],
+                        "is gone" if not os.path.isfile(b["yielded"])
+                        else "holds other bytes", describe())))
+
+        def verify_dirs(when):
+            for d, mine in sorted(by.items()):
+                hurt = [n for n, data in sorted(mine.items())
+                        if not os.path.isfile(os.path.join(d, n))
+                        or read_bytes(os.path.join(d, n)) != data]
+                ctx.check(not hurt, "nested/bystander-touched", lambda: (
+                    "%s: files %r in %s were changed or removed%s"
+                    % (when, hurt, os.path.basename(d), describe())))
+
+        for b in open_blocks:
+            b["yielded"] = b["cm"].__enter__()
+            b["open"] = True
+            if b["slot"]["kind"] == "compress":
+                with open(b["yielded"], "wb") as fh:
+                    fh.write(b["content"])
+            verify_open("after entering block %d" % b["i"])
+        verify_dirs("with all blocks open")
+        for i in order:
+            b = open_blocks[i]
+            b["cm"].__exit__(None, None, None)
+            b["open"] = False
+            when = "after leaving block %d" % i
+            ctx.check(not os.path.exists(b["yielded"]), "nested/copy-not-removed",
+                      lambda: "%s its temp file %r still exists%s"
+                      % (when, b["yielded"], describe()))
+            if b["slot"]["kind"] == "compress":
+                got, problem = stdlib_read(b["slot"]["fmt"], b["path"]) \
+                    if os.path.isfile(b["path"]) else (None, "no target")
+                ctx.check(problem is None and got == b["content"],
+                          "nested/archive-content", lambda: (
+                              "%s: target %s%s" % (
+                                  when, problem or "holds other content",
+                                  describe())))
+                if os.path.isfile(b["path"]):
+                    by[b["W"]][os.path.basename(b["path"])] = read_bytes(
+                        b["path"])
+            verify_open(when)
+            verify_dirs(when)
+        for d, mine in sorted(by.items()):
+            ctx.check(listing(d) == sorted(mine), "nested/debris", lambda: (
+                "%s holds %r, expected %r%s" % (
+                    os.path.basename(d), listing(d), sorted(mine), describe())))
+    finally:
+        tempfile.tempdir = saved_tempdir
+        shutil.rmtree(root, ignore_errors=True)
+
+
+# --------------------------------------------------------------------------
 # strategies
 # --------------------------------------------------------------------------
 ALNUM = "abcxyzABCXYZ0123456789"
@@ -702,10 +903,15 @@ def compress_faults(draw, fmt):
     if fmt is None:
         kinds = ["none", "none", "body"]
     else:
-        kinds = ["none", "none", "none", "body", "body", "copy", "open"]
+        kinds = ["none", "none", "none", "body", "body", "copy", "open",
+                 "noinput"]
     kind = draw(st.sampled_from(kinds))
     if kind == "none":
         return None
+    if kind == "noinput":
+        return {"kind": "noinput", "exc": "exception",
+                "how": draw(st.sampled_from(["nothing", "removed",
+                                             "directory"]))}
     if kind == "body":
         return {"kind": "body", "exc": draw(EXC),
                 "at": draw(st.sampled_from(["before", "mid", "after"]))}
@@ -759,6 +965,7 @@ def cases(draw):
         "content": draw(contents()),
         "chunks": draw(st.integers(1, 4)),
         "xdev": draw(st.sampled_from([False, False, False, True])),
+        "bystanders": draw(st.sampled_from([False, False, True])),
         "tmp": draw(st.sampled_from(["arg", "default"])),
         "dtmp": draw(st.sampled_from(["arg", "default"])),
         "dtarget": draw(st.sampled_from([False, False, False, True, True])),
@@ -771,6 +978,29 @@ def cases(draw):
             st.fixed_dictionaries({"old_archive": st.integers(0, 300)}))),
         "cfault": draw(compress_faults(fmt)),
         "dfault": draw(decompress_faults(fmt)),
+    }
+
+
+@st.composite
+def nested_cases(draw):
+    n = draw(st.sampled_from([2, 2, 3]))
+    same_fmt = draw(st.sampled_from(list(FORMATS)))
+    slots = []
+    for _ in range(n):
+        slots.append({
+            "kind": draw(st.sampled_from(["decompress", "decompress",
+                                          "compress"])),
+            "fmt": draw(st.sampled_from([same_fmt, same_fmt] + list(FORMATS))),
+            "data": draw(st.binary(min_size=0, max_size=200)),
+            "tmp": draw(st.sampled_from(["arg", "arg", "default", "own"])),
+            "sibling": draw(st.booleans()),
+        })
+    return {
+        "stem": draw(st.sampled_from(["orbit.v2.nc", "temp", "a", "d ä.dat",
+                                      "x.tar"])),
+        "slots": slots,
+        "exit_order": draw(st.permutations(list(range(3)))),
+        "bystanders": draw(st.sampled_from([False, True])),
     }
 
 
@@ -791,6 +1021,8 @@ def suites(tier):
     return [
         Suite("blocks", check_case, strategy=cases(),
               examples={"quick": 400, "thorough": 6000}),
+        Suite("nested", check_nested, strategy=nested_cases(),
+              examples={"quick": 150, "thorough": 2500}),
         Suite("chunk-boundary", check_case, cases=chunk_boundary_cases,
               exhaustive=False, shards=4, tiers=("thorough",)),
     ]
